@@ -195,10 +195,10 @@ func parseOptI(s *hx.Sexp) *int {
 func (x *runner) parseOp(line string) (*Call, runCfg, error) {
 	rc := runCfg{mode: "wire", world: "plain"}
 	ss, err := hx.ParseLine(line)
-	if err != nil || len(ss) != 7 || ss[0].Atom != "e2e" {
+	if err != nil || len(ss) != 8 || ss[0].Atom != "e2e" {
 		return nil, rc, fmt.Errorf("not an e2e op (%v)", err)
 	}
-	spec, call, reply, cfg := ss[3], ss[4], ss[5], ss[6]
+	spec, call, reply, cfg := ss[4], ss[5], ss[6], ss[7]
 	// the resource: by its segment names; the method: by kind and name
 	var names []string
 	for _, s := range spec.List[1].List[1:] {
